@@ -538,6 +538,15 @@ pub fn plan(property: &str, tier: &str, seed: u64) -> Plan {
                 let partner = pool[rng.below(pool.len())].clone();
                 subjects.push(Subject::TypeOps { a: t.clone(), b: partner });
             }
+            // unions whose per-member answers are related by subtyping (order-sensitive folds)
+            let rel = universe::related_unions();
+            let rstride = if thorough { 1 } else { 2 };
+            for (i, t) in rel.iter().enumerate() {
+                if i % rstride == 0 {
+                    let partner = rel[rng.below(rel.len())].clone();
+                    subjects.push(Subject::TypeOps { a: t.clone(), b: partner });
+                }
+            }
             if thorough {
                 for _ in 0..6000 {
                     let a = universe::sample_depth3(&mut rng, &pool);
@@ -548,6 +557,9 @@ pub fn plan(property: &str, tier: &str, seed: u64) -> Plan {
         }
         "C15" => {
             for t in ATOMS_AND(&pool) {
+                subjects.push(Subject::RoundTrip { t });
+            }
+            for t in universe::related_unions() {
                 subjects.push(Subject::RoundTrip { t });
             }
             let n3 = if thorough { 50_000 } else { 1_500 };
@@ -605,6 +617,98 @@ fn scenario_json(boot_seed: u64, subject: &Subject, key_seed: u64, prefix: &[Str
     json!({"sim": "hashsim", "boot_seed": boot_seed, "subject": subject.to_json(), "key_seed": key_seed, "prefix": prefix})
 }
 
+/// "After unrelated work": every fourth seed of a subject first runs 1-3 other programs on the
+/// same thread. A pure function of (seed, subject index, k), so any run can be re-created alone.
+pub fn prefix_for(plan: &Plan, seed: u64, idx: usize, k: usize) -> Vec<String> {
+    if k % 4 != 3 {
+        return vec![];
+    }
+    let mut rng = Rng::new(derive_n(seed, "prefix", (idx as u64) << 16 | k as u64));
+    let n = 1 + rng.below(3);
+    (0..n).map(|_| plan.prefix_pool[rng.below(plan.prefix_pool.len())].text.clone()).collect()
+}
+
+/// The order in which a worker executes its runs: for every subject of its shard, seed 0 twice
+/// (the O1 repeat), then seeds 1..K.
+pub fn worker_order(n_subjects: usize, k: usize, shard: usize, shards: usize, upto: (usize, usize, bool)) -> Vec<(usize, usize)> {
+    let mut out = Vec::new();
+    for idx in (0..n_subjects).filter(|i| i % shards == shard) {
+        for kk in 0..k {
+            if (idx, kk) == (upto.0, upto.1) && !upto.2 {
+                return out;
+            }
+            out.push((idx, kk));
+            if kk == 0 {
+                if (idx, kk) == (upto.0, upto.1) && upto.2 {
+                    return out;
+                }
+                out.push((idx, kk));
+            }
+        }
+    }
+    out
+}
+
+static mut KEEP_BITS: [u64; 8192] = [0; 8192];
+
+fn env_bytes(name: &std::ffi::CStr) -> Option<&'static [u8]> {
+    // SAFETY: getenv returns a pointer into the process environment, which this program never modifies
+    unsafe {
+        let p = libc::getenv(name.as_ptr());
+        if p.is_null() {
+            None
+        } else {
+            Some(std::ffi::CStr::from_ptr(p).to_bytes())
+        }
+    }
+}
+
+/// VERIF_STOP_AT = "idx,k,r" (r = 1 for the O1 repeat of seed 0)
+fn replay_stop_at() -> Option<(usize, usize, bool)> {
+    let b = env_bytes(c"VERIF_STOP_AT")?;
+    let mut nums = [0usize; 3];
+    let mut i = 0;
+    for &ch in b {
+        if ch == b',' {
+            i += 1;
+            if i > 2 {
+                break;
+            }
+        } else if ch.is_ascii_digit() {
+            nums[i] = nums[i] * 10 + (ch - b'0') as usize;
+        }
+    }
+    Some((nums[0], nums[1], nums[2] == 1))
+}
+
+/// VERIF_KEEP = "i,j,k,..." (possibly empty); returns whether the variable is set
+fn replay_keep_load() -> bool {
+    let Some(b) = env_bytes(c"VERIF_KEEP") else { return false };
+    let mut cur: Option<usize> = None;
+    let mut set = |n: usize| {
+        if n < 8192 * 64 {
+            // SAFETY: single-threaded at this point (called once before any run thread exists)
+            unsafe { KEEP_BITS[n / 64] |= 1u64 << (n % 64) };
+        }
+    };
+    for &ch in b {
+        if ch.is_ascii_digit() {
+            cur = Some(cur.unwrap_or(0) * 10 + (ch - b'0') as usize);
+        } else if let Some(n) = cur.take() {
+            set(n);
+        }
+    }
+    if let Some(n) = cur {
+        set(n);
+    }
+    true
+}
+
+fn replay_keep_has(idx: usize) -> bool {
+    // SAFETY: written only by replay_keep_load before the loop
+    idx < 8192 * 64 && unsafe { KEEP_BITS[idx / 64] >> (idx % 64) & 1 == 1 }
+}
+
 /// `simctl worker hashsim`: input {property, tier, seed, boot_seed, shard, shards}
 pub fn worker(input: &Value) -> Value {
     let property = input["property"].as_str().unwrap();
@@ -615,36 +719,39 @@ pub fn worker(input: &Value) -> Value {
     let shards = input["shards"].as_u64().unwrap() as usize;
     crate::boot::boot(boot_seed);
     let plan = plan(property, tier, seed);
-    let mut prefix_rng = Rng::stream(seed, "prefix");
     let mut subjects_out = Vec::new();
     let mut violations = Vec::new();
-    let mut harness_errors = Vec::new();
+    let harness_errors: Vec<Value> = Vec::new();
     let mut runs = 0u64;
     let mut events = 0u64;
     let mut prefix_runs = 0u64;
     let want_trace = input["trace"].as_bool().unwrap_or(false);
     let mut trace: Vec<Value> = Vec::new();
+    // history replay: execute only the subjects in VERIF_KEEP (plus the target) and stop at the
+    // run VERIF_STOP_AT. Both come through the environment and are parsed without touching the
+    // heap, so that a replay with the full history performs exactly the allocation sequence of the
+    // original worker (the allocator is deterministic: detalloc.rs).
+    let stop_at = replay_stop_at();
+    let keep_active = replay_keep_load();
     for (idx, subject) in plan.subjects.iter().enumerate() {
-        // the prefix stream advances identically in all workers
-        let prefixes: Vec<Vec<String>> = (0..plan.k)
-            .map(|k| {
-                if k % 4 == 3 {
-                    let n = 1 + prefix_rng.below(3);
-                    (0..n).map(|_| plan.prefix_pool[prefix_rng.below(plan.prefix_pool.len())].text.clone()).collect()
-                } else {
-                    vec![]
-                }
-            })
-            .collect();
         if idx % shards != shard {
             continue;
         }
+        if let (true, Some(stop)) = (keep_active, &stop_at) {
+            if !replay_keep_has(idx) && idx != stop.0 {
+                continue;
+            }
+        }
+        let prefixes: Vec<Vec<String>> = (0..plan.k).map(|k| prefix_for(&plan, seed, idx, k)).collect();
         let mut outcomes: Vec<(u64, Outcome)> = Vec::new();
         for k in 0..plan.k {
             let ks = key_seed(seed, idx, k);
             let o = run_scenario(subject, ks, &prefixes[k]);
             runs += 1;
             events += o.events;
+            if stop_at == Some((idx, k, false)) {
+                return json!({"canon": o.canon, "raw": o.raw, "stopped_at": [idx, k, false]});
+            }
             if !prefixes[k].is_empty() {
                 prefix_runs += 1;
             }
@@ -652,8 +759,20 @@ pub fn worker(input: &Value) -> Value {
                 // O1: the same seed again must give the byte-identical raw record
                 let again = run_scenario(subject, ks, &prefixes[k]);
                 runs += 1;
+                if stop_at == Some((idx, k, true)) {
+                    return json!({"canon": again.canon, "raw": again.raw, "stopped_at": [idx, k, true]});
+                }
                 if again.raw != o.raw || again.canon != o.canon {
-                    harness_errors.push(json!({"what": "same seed, different record", "subject": subject.id(), "first": o.raw, "second": again.raw}));
+                    // the simulator is deterministic (selftest), so this is the code under test
+                    // answering differently the second time in the same process: a candidate whose
+                    // cause is searched in the process history by the driver
+                    violations.push(json!({
+                        "class": "history-dependent",
+                        "detail": format!("same program, same hash keys, same process, executed twice: first {:.300}  |  second {:.300}", o.raw, again.raw),
+                        "subject_id": subject.id(),
+                        "runs": [scenario_json(boot_seed, subject, ks, &prefixes[k])],
+                        "at": {"idx": idx, "k": [0, 0], "repeat": [false, true], "shard": shard, "shards": shards, "canons": [o.canon, again.canon]},
+                    }));
                 }
             }
             if want_trace {
@@ -679,6 +798,7 @@ pub fn worker(input: &Value) -> Value {
                 "detail": format!("seed {:#x}: {:.300}  |  seed {:#x}: {:.300}", first.0, first.1.canon, other.0, other.1.canon),
                 "subject_id": subject.id(),
                 "runs": [scenario_json(boot_seed, subject, first.0, &prefixes[0]), scenario_json(boot_seed, subject, other.0, &prefixes[k])],
+                "at": {"idx": idx, "k": [0, k], "repeat": [false, false], "shard": shard, "shards": shards, "canons": [first.1.canon, other.1.canon]},
             }));
         }
         let raws: HashSet<&str> = outcomes.iter().map(|o| o.1.raw.as_str()).collect();
@@ -700,7 +820,7 @@ pub fn worker(input: &Value) -> Value {
     json!({
         "boot_seed": boot_seed, "shard": shard, "runs": runs, "events": events, "prefix_runs": prefix_runs,
         "subjects": subjects_out, "violations": violations, "harness_errors": harness_errors,
-        "k": plan.k, "n_subjects_total": plan.subjects.len(), "trace": trace,
+        "k": plan.k, "n_subjects_total": plan.subjects.len(), "trace": trace, "input": input.clone(),
     })
 }
 
